@@ -15,7 +15,7 @@ from . import util
 _RE_STATES = re.compile(r"(\d+) states generated, (\d+) distinct states found, (\d+) states left on queue")
 _RE_DEPTH = re.compile(r"The depth of the complete state graph search is (\d+)")
 _RE_VERDICT = re.compile(r'^<<"VERDICT", (\d+), "([^"]*)"(?:, (.*))?>>$')
-_RE_REJECTED = re.compile(r'^<<"REJECTED", \{(.*)\}>>$')
+_RE_REJECTED = re.compile(r'"REJECTED",\s*\{([^}]*)\}', re.S)
 
 
 def _specdir(ctx):
@@ -134,17 +134,13 @@ def validate(ctx, module, traces, cfg=None, cfg_text=None, timeout=1800, mode="m
                 if verdicts[base + i] is None:
                     _fail(module, out, "no verdict for trace %d (monitor not total?)" % (base + i))
         else:
-            m = None
-            for line in out.splitlines():
-                m = _RE_REJECTED.match(line)
-                if m:
-                    break
+            m = _RE_REJECTED.search(out)
             if m is None:
                 if not stats["ok"]:
                     _fail(module, out, "trace validation run failed")
                 rej = set()
             else:
-                rej = {int(x) for x in m.group(1).replace(" ", "").split(",") if x}
+                rej = {int(x) for x in re.split(r"[\s,]+", m.group(1)) if x}
                 # anything else than the postcondition failing is a machinery problem
                 if "is violated" in out and "Post" not in out:
                     _fail(module, out, "unexpected TLC error in search-mode validation")
